@@ -51,6 +51,7 @@ def cases(tier, seed):
                              mode=mode, options=opts, sigma=float(10 ** rng.uniform(-3, 1)),
                              max_fun_evals=int(rng.choice([60, 80, 120, 150])))
         out.append({"spec": spec})
+    out += C.option_variation_slice("C05", tier, seed, modes=("auto", "declared", "he"))
     return out
 
 
